@@ -6,6 +6,8 @@
    Statements only; proofs in proofs/Spec_*.v over the definitions generated from /repo on this run. *)
 From Coq Require Import Reals.
 From VP Require Import Lib RLib Spec Compute Tables Spec_planar Spec_spatial1 Spec_spatial2 Spec_lorentz Spec_lorentz2.
+From VP Require ObjModel ObjNames NbModel NbApi NbChecks.
+Import ObjNames List.ListNotations.
 Open Scope R_scope.
 
 (* ---------------- planar (19 modules; equal/not_equal/isclose are C12, is_* are C13) ---------------- *)
@@ -185,6 +187,15 @@ Proof.
 Qed.
 
 (* non-vacuity: a representable operand in a polar system *)
+
+(* the same laws hold in numba-compiled code: for these operations every program point of the numba-supported API has the
+   same outcome (class, coordinate system, field expressions over the generated compute definitions) through the
+   Numba overload layer as through the interpreter (T5 table, gen/NbApi*.v; exceptions: the C07 known findings) *)
+Theorem C01_compiled_accessors_are_the_interpreted_ones :
+  VP.NbChecks.agree_on [N_x; N_y; N_z; N_rho; N_phi; N_theta; N_eta; N_t; N_tau; N_mag; N_mag2; N_rho2; N_t2; N_tau2; N_neg2D; N_neg3D; N_neg4D]%list = true /\
+  Nat.ltb 100 (VP.NbChecks.count_on [N_x; N_y; N_z; N_rho; N_phi; N_theta; N_eta; N_t; N_tau; N_mag; N_mag2; N_rho2; N_t2; N_tau2; N_neg2D; N_neg3D; N_neg4D]%list) = true.
+Proof. vm_cast_no_check (conj (eq_refl true) (eq_refl true)). Qed.
+
 Example C01_nonvacuous : rep4 RhoPhi LEta TTau 1 2 (1/2) 3 /\ rep3 XY LTheta 1 1 1.
 Proof.
   unfold rep4, rep3, canon_az, canon_lg, canon_tm, pos_az. pose proof PI_RGT_0. pose proof (PI_ineq 0).
